@@ -12,7 +12,7 @@ import (
 )
 
 // C17 — merging is associative and has single-segment identity.
-const c17Rule = "case = 2..5 segments with deletions + a drawn order-preserving bracketing (recursive partition into consecutive groups; drops applied where a leaf is consumed; " +
+const c17Rule = "case = 2..5 segments with deletions + a drawn order-preserving bracketing (recursive partition into consecutive groups; deletions applied where a leaf is consumed OR deferred: the leaf is consumed without deletions and its deletions are translated through the reported document-number maps and applied at an outer merge; " +
 	"intermediate results loaded from the merger's bytes; independent output chunk modes); oracle (metamorphic, no model) = flat merge and bracketed merge observationally identical on all facets " +
 	"INCLUDING statistics, document-number maps compose, merge([M]) == M incl. statistics for a merged M, merge([B]) == B except statistics for a built B; " +
 	"non-trivial = >=3 segments, >=1 drop and an intermediate result that contains a 1-hit term or a multi-chunk list; distinct = hash of case text + bracketing"
@@ -24,14 +24,22 @@ type mnode struct {
 	shape  string
 }
 
-func mergeNodes(ctx *Ctx, nodes []*mnode, mode uint32) (*mnode, error) {
+// mergeNodes merges the nodes. deferDrop[j] (optional) postpones node j's
+// pending deletions: node j is consumed without deletions and its deletions
+// are translated through the reported document-number map into the result's
+// numbering, to be applied when the result itself is consumed.
+func mergeNodes(ctx *Ctx, nodes []*mnode, mode uint32, deferDrop []bool) (*mnode, error) {
 	ins := make([]*SegCase, len(nodes))
 	drops := make([]*roaring.Bitmap, len(nodes))
 	var shapes []string
 	for i, n := range nodes {
 		ins[i] = n.c
-		drops[i] = n.drops
-		shapes = append(shapes, n.shape)
+		if deferDrop == nil || !deferDrop[i] {
+			drops[i] = n.drops
+			shapes = append(shapes, n.shape)
+		} else {
+			shapes = append(shapes, n.shape+"~deferred")
+		}
 	}
 	mc, maps, err := MergeCases(ctx, ins, drops, mode, holdMem)
 	if err != nil {
@@ -42,6 +50,19 @@ func mergeNodes(ctx *Ctx, nodes []*mnode, mode uint32) (*mnode, error) {
 	for j, n := range nodes {
 		if len(maps) != len(nodes) || len(maps[j]) != n.c.Exp.N {
 			return nil, fmt.Errorf("DocumentNumbers shape wrong: %v", maps)
+		}
+		if deferDrop != nil && deferDrop[j] && n.drops != nil && !n.drops.IsEmpty() {
+			if out.drops == nil {
+				out.drops = roaring.New()
+			}
+			it := n.drops.Iterator()
+			for it.HasNext() {
+				nd := maps[j][it.Next()]
+				if nd == DocDropped {
+					return nil, fmt.Errorf("a document consumed without deletions was reported as dropped")
+				}
+				out.drops.Add(uint32(nd))
+			}
 		}
 		for leaf, old := range n.leafTo {
 			nm := make([]uint64, len(old))
@@ -71,7 +92,11 @@ func bracket(t *rapid.T, ctx *Ctx, leaves []*mnode, lo, hi int, top bool, interL
 		if !top && !rapid.Bool().Draw(t, "premergeSingle") {
 			return leaves[lo], nil
 		}
-		n, err := mergeNodes(ctx, leaves[lo:hi], genModeC17(t, "modeSingle"))
+		var df []bool
+		if !top {
+			df = []bool{rapid.Bool().Draw(t, "deferSingle")}
+		}
+		n, err := mergeNodes(ctx, leaves[lo:hi], genModeC17(t, "modeSingle"), df)
 		if err == nil && !top {
 			for l := range n.c.Labels {
 				interLabels[l] = true
@@ -99,8 +124,18 @@ func bracket(t *rapid.T, ctx *Ctx, leaves []*mnode, lo, hi int, top bool, interL
 		}
 		children = append(children, ch)
 	}
-	n, err := mergeNodes(ctx, children, genModeC17(t, "modeGroup"))
+	var df []bool
+	if !top {
+		df = make([]bool, len(children))
+		for i := range df {
+			df[i] = rapid.IntRange(0, 2).Draw(t, "deferDrops") == 0
+		}
+	}
+	n, err := mergeNodes(ctx, children, genModeC17(t, "modeGroup"), df)
 	if err == nil && !top {
+		if n.drops != nil {
+			interLabels["deferred-deletions-translated"] = true
+		}
 		for l := range n.c.Labels {
 			interLabels[l] = true
 		}
@@ -136,7 +171,7 @@ func c17Prop(st *CaseStats, fam int) func(t *rapid.T) {
 			leaves[i] = &mnode{c: c, drops: d, leafTo: map[int][]uint64{i: id}, shape: fmt.Sprintf("%d", i)}
 			desc += fmt.Sprintf(" L%d=%s drop=%s", i, c.Desc, bmString(d))
 		}
-		flat, err := mergeNodes(ctx, leaves, genModeC17(t, "modeFlat"))
+		flat, err := mergeNodes(ctx, leaves, genModeC17(t, "modeFlat"), nil)
 		if err != nil {
 			t.Fatalf("%s: flat merge: %v", desc, err)
 		}
@@ -163,7 +198,7 @@ func c17Prop(st *CaseStats, fam int) func(t *rapid.T) {
 			}
 		}
 		// single-segment identity: merge([M]) == M including statistics
-		idm, err := mergeNodes(ctx, []*mnode{{c: flat.c, leafTo: map[int][]uint64{}}}, genModeC17(t, "modeId"))
+		idm, err := mergeNodes(ctx, []*mnode{{c: flat.c, leafTo: map[int][]uint64{}}}, genModeC17(t, "modeId"), nil)
 		if err != nil {
 			t.Fatalf("%s: identity merge: %v", desc, err)
 		}
